@@ -7,9 +7,25 @@ from . import c02, c10
 SIM = {"quick": dict(num=200, workers=4, maxnodes=26, minnodes=10), "thorough": dict(num=2000, workers=16, maxnodes=40, minnodes=12)}
 
 
+def headers_model(run):
+    """spec/Headers.tla: parsed modules (units) with headers of their own, grouping by module name, the backend's environment.
+    The code's design is order independent (C11) and applies every unit's own tagging default at lex time; what C12 demands of
+    the generated environment in full is refuted for it (D_C12_same_name_env); the ideal design passes; one header per module
+    name is refuted for C11."""
+    res = core.tlc("mc/MC_Headers.tla", "mc/MC_Headers_code.cfg", workers=4, coverage=True, timeout=900, xmx="4g")
+    core.check_coverage(res)
+    run.add_tlc(res, "Headers.tla, the code's design (header per parsed module, environment of the group head): LexEnvIsOwn, GenEnvIsOwnIfDistinct, FoldAgrees, OrderIndependent, termination; 3 units x 2 names x 3 environments, every order")
+    ideal = core.tlc("mc/MC_Headers.tla", "mc/MC_Headers_ideal.cfg", workers=4, timeout=900, xmx="4g")
+    run.add_tlc(ideal, "Headers.tla, environment per definition: GenEnvIsOwn as well")
+    for cfg in ("code_leak", "pername"):
+        neg = core.tlc("mc/MC_Headers.tla", f"mc/MC_Headers_{cfg}.cfg", workers=2, timeout=900, xmx="4g", expect_violation=True)
+        run.cov.setdefault("header_design_variants_refuted", {})[cfg] = neg.violated
+
+
 def check(tier):
     run = Run("C12", tier)
     c10.model_check(run, tier)
+    headers_model(run)
     cases = [c for c in c02.generate(run, tier, **SIM[tier]) if len(c["mods"]) >= 2]
     run.case_of = lambda ev: cases[ev["case"]] if "case" in ev and ev["case"] < len(cases) else None
     events = c10.drive_and_validate(run, cases, shards=4 if tier == "quick" else 16, mode="c12", prefix="C12:")
